@@ -1185,6 +1185,129 @@ def operand_sum_family(binaries):
 
 
 # ------------------------------------------------------------------------------------------------
+# constants limit by KIND of constant: the 65536-constants-per-chunk limit is enforced in ONE place (make_constant); a
+# constant that reaches the table by another route has its index narrowed to u16 (seeded mutant round 5: names).  For
+# every route a constant can take, the script chunk is filled (by construction, measured on the decoded table of small
+# compiles) so that the new constant would be the last that fits, the first that does not, and the one after.
+# S: "Too many constants in one chunk." or a correct run.  The 260 KiB chunks are not sent through Coq in the quick
+# tier (const_at is a list lookup); their operands are range-checked on the decoded dump.
+
+CONST_SETUP = ('var a = 0; var t = 5; print(a); var caught = "caught"; var q = nil; var Kx = nil;\n'
+               '#[constructor(new)] class K0 { fn m0(self) { return 1; } }\nvar o = K0.new();\n')
+CONST_KINDS = [
+    # kind, tail introducing the new constant FIRST, reads afterwards, lines printed by tail + reads, token expected in the table
+    ("number_literal", "a = 424242%(i)d;", "print(a);", ["424242%(i)d"], None),
+    ("string_literal", 'a = "%(nm)s";', "print(a);", ["%(nm)s"], "%(nm)s"),
+    ("global_define", "var %(nm)s = t;", "print(%(nm)s);", ["5"], "%(nm)s"),
+    ("global_get", "try { print(%(nm)s); } catch e { print(caught); }", "", ["caught"], "%(nm)s"),
+    ("global_set", "try { %(nm)s = t; } catch e { print(caught); }", "", ["caught"], "%(nm)s"),
+    ("property_get", "try { print(o.%(nm)s); } catch e { print(caught); }", "", ["caught"], "%(nm)s"),
+    ("property_set", "o.%(nm)s = t;", "print(o.%(nm)s);", ["5"], "%(nm)s"),
+    ("invoke_name", "try { o.%(nm)s(); } catch e { print(caught); }", "", ["caught"], "%(nm)s"),
+    ("method_declaration", "#[constructor(new)] class Kx { fn %(nm)s(self) { return 5; } }", "print(Kx.new().%(nm)s());", ["5"], None),
+    ("class_name", "class %(nm)s {}", "print(%(nm)s);", ["<class %(nm)s>"], "%(nm)s"),
+    ("import_path", 'import "%(nm)s" as o;', "print(o.q);", ["3"], "%(nm)s"),
+    ("fn_declaration", "fn %(nm)s() { return 5; }", "print(%(nm)s());", ["5"], "%(nm)s"),
+    ("interpolation_part", 'a = "%(nm)s${t}";', "print(a);", ["%(nm)s5"], "%(nm)s"),
+]
+CONST_NAMES = ("zq1", "zq2")
+BOUNDARY_MODULES.update({n: "var q = 3;" for n in CONST_NAMES})
+CONST_LIMIT = 65536
+
+
+def const_program(kind, nfill, ntails):
+    name, tail, reads, prints, tok = kind
+    out = [CONST_SETUP, "".join("%d;" % (100000 + i) for i in range(nfill))]
+    exp = ["0"]
+    for i in range(ntails):
+        d = {"nm": CONST_NAMES[i], "i": i}
+        out.append(tail % d)
+    for i in range(ntails):
+        d = {"nm": CONST_NAMES[i], "i": i}
+        out.append(reads % d)
+    out.append("print(t);")
+    # the expected output only matters for ntails == 1 (two tails never fit)
+    d = {"nm": CONST_NAMES[0], "i": 0}
+    exp += [p % d for p in prints]
+    exp.append("5")
+    return "\n".join(out), exp
+
+
+def nconsts(tree):
+    return len(tree[0].consts)
+
+
+def constants_by_kind(binary):
+    """-> (rows, failures)"""
+    rows, failures = [], []
+    # calibration on small chunks: constants before the tail, new constants of the tail, of the reads
+    cal_src = []
+    for kind in CONST_KINDS:
+        base = CONST_SETUP + "".join("%d;" % (100000 + i) for i in range(10))
+        base11 = CONST_SETUP + "".join("%d;" % (100000 + i) for i in range(11))
+        d = {"nm": CONST_NAMES[0], "i": 0}
+        cal_src += [base, base11, base + kind[1] % d, const_program(kind, 10, 1)[0]]
+    cal = compile_sources(binary, cal_src)
+    plans = []
+    for k, kind in enumerate(CONST_KINDS):
+        c = cal[4 * k:4 * k + 4]
+        if any(x[0] != "ok" for x in c):
+            rows.append({"family": "constants_by_kind:" + kind[0], "error": "calibration program did not compile: %s" % [x[1] for x in c if x[0] != "ok"][:1]})
+            continue
+        c0, c0b, c1, c2 = [nconsts(x[1]) for x in c]
+        new = c1 - c0
+        if c0b != c0 + 1 or new < 1 or c2 != c1 + (1 if False else 0) and c2 - c1 != 0:
+            rows.append({"family": "constants_by_kind:" + kind[0], "error": "calibration: filler adds %d, tail adds %d, reads add %d constants" % (c0b - c0, new, c2 - c1)})
+            continue
+        tok = kind[4] % {"nm": CONST_NAMES[0], "i": 0} if kind[4] else None
+        if tok and c[2][1][0].consts[c0] != "s" + tok.encode().hex():
+            rows.append({"family": "constants_by_kind:" + kind[0], "error": "calibration: the first new constant of the tail is %s, not the name %s" % (c[2][1][0].consts[c0][:40], tok)})
+            continue
+        extra = new - 1
+        fit = CONST_LIMIT - extra                 # largest position of the new constant with which the tail still fits
+        for (p, ntails) in ((fit, 1), (fit + 1, 1), (fit + 1, 2)):
+            nfill = 10 + (p - 1 - c0)
+            src, exp = const_program(kind, nfill, ntails)
+            plans.append((kind, p if ntails == 1 else p + new, p, ntails, extra, src, exp, tok))
+    comp = compile_sources(binary, [pl[5] for pl in plans], timeout_ms=120000)
+    fit_ix = [i for i, (pl, c) in enumerate(zip(plans, comp)) if c[0] == "ok"]
+    runs = dict(zip(fit_ix, run_sources(binary, [plans[i][5] for i in fit_ix])))
+    for i, ((kind, pos_last, p, ntails, extra, src, exp, tok), c) in enumerate(zip(plans, comp)):
+        expected = "ok" if (p + extra <= CONST_LIMIT and ntails == 1) else "err"
+        row = {"family": "constants_by_kind:" + kind[0], "bound": CONST_LIMIT, "size": pos_last, "new_constants_of_construct": extra + 1,
+               "expected_compile": expected, "compile": c[0], "src_len": len(src), "status": "ok", "verifier": "-"}
+        if c[0] == "err":
+            row["message"] = (c[1][0] if c[1] else "").split("] ", 1)[-1][:80]
+            if expected == "ok":
+                row["status"] = "REJECTED-BELOW-LIMIT"
+        elif c[0] == "crash":
+            row["status"] = "COMPILER-CRASH"
+            failures.append(("compiler crashed on a constants-limit program (%s)" % kind[0], src, exp, [str(c[1])[:200]], None))
+        else:
+            fn0 = c[1][0]
+            n = len(fn0.consts)
+            row["constants_in_chunk"] = n
+            bad = [ins for ins in listing(fn0, c[1]) if ins[1] in L16 and ins[1] not in JUMPS + ("Loop",) and ins[2] >= n]
+            r = runs.get(i)
+            okrun = r is not None and r[0] == "ok" and r[1] == exp
+            row["run"] = "as expected" if okrun else ("%s: %s" % (r[0], (r[2].strip() or " / ".join(r[1][-4:]))[:120]) if r else "-")
+            row["verifier"] = "thorough tier / python: operands in range: %s" % (not bad)
+            if expected == "err":
+                row["status"] = "TRUNCATED-OK"
+                failures.append(("a %s as constant number %d of a chunk (limit %d) compiles" % (kind[0], pos_last, CONST_LIMIT), src, exp,
+                                 (r[1][-6:] if r else []) + ["constants in chunk: %d" % n], "compile error"))
+            elif bad or n > CONST_LIMIT or (tok and fn0.consts[p - 1] != "s" + tok.encode().hex()):
+                row["status"] = "WRONG-CONSTANT-TABLE"
+                failures.append(("constant table of an accepted chunk at the limit is inconsistent (%s)" % kind[0], src, exp, ["constants: %d" % n], None))
+            elif not okrun:
+                row["status"] = "WRONG-OUTPUT"
+                failures.append(("accepted program with %d constants in one chunk (%s is the last) misbehaves" % (n, kind[0]), src, exp,
+                                 r[1][-6:] + ([r[0] + ":" + r[2].strip()[:160]] if r[0] != "ok" else []), None))
+        rows.append(row)
+    return rows, failures
+
+
+# ------------------------------------------------------------------------------------------------
 # the check
 
 CORE_YL = os.path.join(yvlib.REPO, "yarel", "src", "core.yl")
@@ -1281,9 +1404,13 @@ def run(ctx):
         if isinstance(src, str):
             r = compile_sources(binary, [src])[0]
             exp = ctx.replay_only.get("expected")
-            if r[0] == "ok":
+            if r[0] == "ok" and ctx.replay_only.get("must_not_compile"):
+                ctx.violation("program past an encoding limit compiles", input=src, expected="compile error",
+                              actual="Ok, %d constants in the script chunk" % len(r[1][0].consts), must_not_compile=True)
+            elif r[0] == "ok":
                 it = Item("replay", src, r[1], "replay")
-                judge([it], "C04replay")
+                if sum(len(f.code) for f in r[1] if f) < 150000:
+                    judge([it], "C04replay")
                 for (k, fn, vd) in unknown_flags(it):
                     ctx.violation("compiled function rejected by the bytecode verifier", input=src, expected="OK, unique heights",
                                   actual=vd["raw"][:300], **describe(it, k, fn, vd))
@@ -1349,6 +1476,7 @@ def run(ctx):
     items += bitems
     srows, sitems, sfail = operand_sum_family({"release": binary, "debug": ctx.harness("debug")})
     items += sitems
+    crows, cfail = constants_by_kind(binary)
     log("[C04] compiled everything in %.1fs" % (_t.time() - t_start))
     # ---- wire self-test: the model must see exactly the bytes the compiler produced
     probe = [it for it in items if sum(len(f.code) for f in it.tree if f) < 3000][:6] + litems[:1]
@@ -1452,6 +1580,16 @@ def run(ctx):
             ctx.corr_broken.append("operand-sum family: target %s not hit exactly (%s)" % (row["size"], row.get("operand")))
     for (what, src, exp, act, bname) in sfail:
         viol.append((what, Item("operand_sum", src, None, "limit", {"expected_output": exp, "actual_output": act, "build": bname}), "boundary"))
+    for row in crows:
+        if "error" in row:
+            ctx.corr_broken.append("%s: %s" % (row["family"], row["error"]))
+        elif row["status"] == "REJECTED-BELOW-LIMIT":
+            ctx.corr_broken.append("%s: %d constants (<= %d) is a compile error: %s" % (row["family"], row["size"], CONST_LIMIT, row.get("message")))
+    for (what, src, exp, act, must) in cfail:
+        meta = {"expected_output": exp, "actual_output": act}
+        if must:
+            meta["must_not_compile"] = True
+        viol.append((what, Item("constants_by_kind", src, None, "limit", meta), "boundary"))
     for (what, src, exp, act) in bfail:
         viol.append((what, Item("boundary", src, None, "limit", {"expected_output": exp, "actual_output": act}), "boundary"))
     # ---- report violations (first one shrunk)
@@ -1484,7 +1622,7 @@ def run(ctx):
         if info == "boundary":
             ctx.violation(what, input=src, expected="compile error, or output " + json.dumps(it.meta["expected_output"]),
                           actual="compiler said Ok; output " + json.dumps(it.meta["actual_output"]), expected_output=it.meta["expected_output"],
-                          **({"build": it.meta["build"]} if "build" in it.meta else {}))
+                          **{k_: it.meta[k_] for k_ in ("build", "must_not_compile") if k_ in it.meta})
             continue
         ctx.violation(what, input=src if src is None or len(src) < 200000 else src[:1000] + "...(%d bytes; family program, rebuild with tools/props/C04.py limit_family)" % len(src),
                       expected="compile error" if info == "limit" else "verifier: OK with unique heights", actual=extra.get("verdict", "compiler said Ok"),
@@ -1520,7 +1658,7 @@ def run(ctx):
         "known_class_histogram": class_hist, "known_class_witnesses": {c: w["source"][:600] for c, w in witnesses.items()},
         "groups": group_hist, "scripts": counts, "core_classes": ncore,
         "generated": {"clean": n_clean, "full": n_full, "compile_errors": gen_err, "feature_histogram": feature_hist},
-        "limit_family": [{k_: v_ for k_, v_ in r.items() if k_ not in ("line_table_ok",)} for r in rows] + brows + srows,
+        "limit_family": [{k_: v_ for k_, v_ in r.items() if k_ not in ("line_table_ok",)} for r in rows] + brows + srows + crows,
         "locals_boundary_programs": sum(len(r["sizes"]) for r in brows),
         "samples": [sample_ok.src[:500] if sample_ok else "", next((r_["family"] + ":" + str(r_["size"]) for r_ in rows if "size" in r_), "")],
         "traces_validated_against_impl": len(items),
